@@ -44,6 +44,7 @@
 #include <ompl/base/PlannerTerminationCondition.h>
 #include <ompl/base/spaces/RealVectorStateSpace.h>
 #include <ompl/base/spaces/SE2StateSpace.h>
+#include <ompl/base/spaces/DiscreteStateSpace.h>
 #include <ompl/base/objectives/PathLengthOptimizationObjective.h>
 #include <ompl/base/goals/GoalState.h>
 #include <ompl/base/goals/GoalStates.h>
@@ -609,9 +610,157 @@ static ob::SpaceInformationPtr rvSpace(unsigned dim, Counters *c)
     return si;
 }
 
+// ---- tie-rich spaces: exact distance / cost ties are the normal case here (grid worlds, mode variables, states with few
+// representable positions).  Which of several exactly equidistant neighbours a nearest-neighbour structure returns, and
+// in which order, must be a function of the program alone.
+class GridChecker : public ob::StateValidityChecker
+{
+public:
+    GridChecker(const ob::SpaceInformationPtr &si, Counters *c) : ob::StateValidityChecker(si), c_(c)
+    {
+    }
+    bool isValid(const ob::State *s) const override
+    {
+        const auto *cs = s->as<ob::CompoundState>();
+        const int x = cs->components[0]->as<ob::DiscreteStateSpace::StateType>()->value;
+        const int y = cs->components[1]->as<ob::DiscreteStateSpace::StateType>()->value;
+        bool ok = si_->satisfiesBounds(s) && !(x == 20 && y <= 44) && !(x == 40 && y >= 15);
+        c_->query({(double)x, (double)y}, ok ? 1 : 0, "q");
+        return ok;
+    }
+
+private:
+    Counters *c_;
+};
+class GridProj : public ob::ProjectionEvaluator
+{
+public:
+    GridProj(const ob::StateSpace *space) : ob::ProjectionEvaluator(space)
+    {
+    }
+    unsigned int getDimension() const override
+    {
+        return 2;
+    }
+    void defaultCellSizes() override
+    {
+        cellSizes_.assign(2, 4.0);
+    }
+    void project(const ob::State *state, Eigen::Ref<Eigen::VectorXd> projection) const override
+    {
+        const auto *cs = state->as<ob::CompoundState>();
+        projection[0] = cs->components[0]->as<ob::DiscreteStateSpace::StateType>()->value;
+        projection[1] = cs->components[1]->as<ob::DiscreteStateSpace::StateType>()->value;
+    }
+};
+static double snap32(double v)
+{
+    return std::round(v * 32.0) / 32.0;
+}
+class SnapSampler : public ob::RealVectorStateSampler
+{
+public:
+    using ob::RealVectorStateSampler::RealVectorStateSampler;
+    void snap(ob::State *s)
+    {
+        double *v = s->as<ob::RealVectorStateSpace::StateType>()->values;
+        for (unsigned i = 0; i < space_->getDimension(); ++i)
+            v[i] = std::min(1.0, std::max(0.0, snap32(v[i])));
+    }
+    void sampleUniform(ob::State *s) override
+    {
+        ob::RealVectorStateSampler::sampleUniform(s);
+        snap(s);
+    }
+    void sampleUniformNear(ob::State *s, const ob::State *near, double d) override
+    {
+        ob::RealVectorStateSampler::sampleUniformNear(s, near, d);
+        snap(s);
+    }
+    void sampleGaussian(ob::State *s, const ob::State *mean, double sd) override
+    {
+        ob::RealVectorStateSampler::sampleGaussian(s, mean, sd);
+        snap(s);
+    }
+};
+// a real vector space with 33 representable positions per axis: samples and interpolated states are snapped to k/32
+class LatticeRV : public FillRV
+{
+public:
+    using FillRV::FillRV;
+    ob::StateSamplerPtr allocDefaultStateSampler() const override
+    {
+        return std::make_shared<SnapSampler>(this);
+    }
+    void interpolate(const ob::State *from, const ob::State *to, double t, ob::State *state) const override
+    {
+        ob::RealVectorStateSpace::interpolate(from, to, t, state);
+        double *v = state->as<StateType>()->values;
+        for (unsigned i = 0; i < getDimension(); ++i)
+            v[i] = snap32(v[i]);
+    }
+};
+
 static bool buildProblem(const std::string &env, Counters *c, Problem &p)
 {
-    if (env == "box2" || env == "box3" || env == "ml3")
+    if (env == "grid")
+    {
+        auto cs = std::make_shared<ob::CompoundStateSpace>();
+        cs->addSubspace(std::make_shared<ob::DiscreteStateSpace>(0, 59), 1.0);
+        cs->addSubspace(std::make_shared<ob::DiscreteStateSpace>(0, 59), 1.0);
+        cs->registerDefaultProjection(std::make_shared<GridProj>(cs.get()));
+        cs->lock();
+        p.si = std::make_shared<ob::SpaceInformation>(cs);
+        p.si->setStateValidityChecker(std::make_shared<GridChecker>(p.si, c));
+        p.si->setStateValidityCheckingResolution(0.02);
+        p.sis.push_back(p.si);
+        ob::ScopedState<ob::CompoundStateSpace> start(cs), goal(cs);
+        start->as<ob::DiscreteStateSpace::StateType>(0)->value = 5;
+        start->as<ob::DiscreteStateSpace::StateType>(1)->value = 5;
+        goal->as<ob::DiscreteStateSpace::StateType>(0)->value = 54;
+        goal->as<ob::DiscreteStateSpace::StateType>(1)->value = 54;
+        p.pdef = std::make_shared<ob::ProblemDefinition>(p.si);
+        p.pdef->setStartAndGoalStates(start, goal, 0.5);
+    }
+    else if (env == "box3z")
+    {
+        // a planar problem posed in a 3-D real vector space whose third coordinate is pinned by its bounds (zero extent);
+        // the default projection of a space with more than two dimensions is a random linear one, computed from the bounds
+        auto space = std::make_shared<FillRV>(3);
+        ob::RealVectorBounds bounds(3);
+        bounds.setLow(0.);
+        bounds.setHigh(1.);
+        bounds.low[2] = bounds.high[2] = 0.5;
+        space->setBounds(bounds);
+        p.si = std::make_shared<ob::SpaceInformation>(space);
+        p.si->setStateValidityChecker(std::make_shared<BoxChecker>(p.si, boxesFor(2), c));
+        p.si->setStateValidityCheckingResolution(0.02);
+        p.sis.push_back(p.si);
+        ob::ScopedState<> start(space), goal(space);
+        start[0] = start[1] = 0.1;
+        goal[0] = goal[1] = 0.9;
+        start[2] = goal[2] = 0.5;
+        p.pdef = std::make_shared<ob::ProblemDefinition>(p.si);
+        p.pdef->setStartAndGoalStates(start, goal, 0.02);
+    }
+    else if (env == "lat2")
+    {
+        auto space = std::make_shared<LatticeRV>(2);
+        ob::RealVectorBounds bounds(2);
+        bounds.setLow(0.);
+        bounds.setHigh(1.);
+        space->setBounds(bounds);
+        p.si = std::make_shared<ob::SpaceInformation>(space);
+        p.si->setStateValidityChecker(std::make_shared<BoxChecker>(p.si, boxesFor(2), c));
+        p.si->setStateValidityCheckingResolution(0.02);
+        p.sis.push_back(p.si);
+        ob::ScopedState<> start(space), goal(space);
+        start[0] = start[1] = 3.0 / 32.0;
+        goal[0] = goal[1] = 29.0 / 32.0;
+        p.pdef = std::make_shared<ob::ProblemDefinition>(p.si);
+        p.pdef->setStartAndGoalStates(start, goal, 0.02);
+    }
+    else if (env == "box2" || env == "box3" || env == "ml3")
     {
         unsigned dim = env == "box2" ? 2 : 3;
         if (env == "ml3")
@@ -953,6 +1102,13 @@ static std::string hashStates(const ob::StateSpacePtr &space, const std::vector<
         std::vector<double> r;
         if (s)
             space->copyToReals(r, s);
+        if (s && r.empty())
+        {
+            // spaces without real-valued components (discrete): the serialized bytes stand in for the coordinates
+            std::vector<unsigned char> b(space->getSerializationLength());
+            space->serialize(b.data(), s);
+            r.assign(b.begin(), b.end());
+        }
         rs.push_back(r);
     }
     if (sorted)
@@ -1127,10 +1283,30 @@ static int planMode()
             {
                 pdata = "exception";
             }
+            // the space's default projection (for a real vector space of more than two dimensions: a random matrix) applied
+            // to the start state: the projection itself is compared, not only what planners make of it
+            std::string proj = "-";
+            try
+            {
+                if (p.si->getStateSpace()->hasDefaultProjection())
+                {
+                    auto pe = p.si->getStateSpace()->getDefaultProjection();
+                    Eigen::VectorXd v(pe->getDimension());
+                    pe->project(p.pdef->getStartState(0), v);
+                    Fnv h;
+                    for (int i = 0; i < v.size(); ++i)
+                        h.dbl(v[i]);
+                    proj = h.hex();
+                }
+            }
+            catch (const std::exception &)
+            {
+                proj = "exception";
+            }
             std::ostringstream os;
             os << "status=" << (int)(ob::PlannerStatus::StatusType)st << " approx=" << (p.pdef->hasApproximateSolution() ? 1 : 0)
                << " evals=" << c.evals << " polls=" << c.polls << " qhash=" << c.q.hex() << " path=" << path
-               << " pdata=" << pdata;
+               << " pdata=" << pdata << " proj=" << proj;
             return os.str();
         };
         try
